@@ -2,6 +2,7 @@
   C09 — USM: no unauthenticated, altered or downgraded response is ever accepted.
   Model: `Snmp.Usm.processIncoming`, for every MAC, localisation and privacy function.
 -/
+import Snmp.Gen.Facts
 import Snmp.Model.Usm
 import Snmp.Model.V3Glue
 namespace Snmp.Props.C09
@@ -173,5 +174,18 @@ theorem C09_wire_accept_auth (cr : Crypto) (c : Creds) (pw : Bytes) (hc : c.auth
       cases hr : RawDigest.resetRawDigest data with
       | error e => simp [hr] at hz
       | ok z' => simp [hr] at hz; rw [hz]
+
+/-- **The security-level check, generated from `validate_security_level`.**  The sequence of
+    `if … : raise UnsupportedSecurityLevel` statements of the source, translated by `tools/extract.py`
+    into a Boolean function of the credentials' keys and the incoming flags, refuses exactly what the
+    model's `checkLevel` refuses: a message without the auth flag for a user with an authentication
+    key, or without the priv flag for a user with a privacy key — so neither flag can be cleared. -/
+theorem C09_level_rule (c : Creds) (m : Spec.V3Msg) :
+    checkLevel c m = if Snmp.Gen.levelRefused c.auth.isSome c.priv.isSome (authFlag m) (privFlag m) then .error .unsupportedLevel else .ok () := by
+  unfold checkLevel Snmp.Gen.levelRefused
+  cases c.auth.isSome <;> cases c.priv.isSome <;> cases authFlag m <;> cases privFlag m <;> simp
+
+theorem C09_level_table : ∀ a p fa fp : Bool,
+    Snmp.Gen.levelRefused a p fa fp = ((a && !fa) || (p && !fp)) := by decide
 
 end Snmp.Props.C09
